@@ -508,7 +508,10 @@ impl<'a> From<OutputEvent> for Event<'a> {
             OutputEvent::Start(e) => Event::Start(e.into_bytesstart()),
             OutputEvent::Comment(t) => Event::Comment(BytesText::from_escaped(t)),
             OutputEvent::Text(t) => Event::Text(BytesText::from_escaped(t)),
-            OutputEvent::CData(t) => Event::CData(BytesCData::new(t)),
+            OutputEvent::CData(t) => {
+                // split any embedded `]]>` so the section stays well-formed
+                Event::CData(BytesCData::new(t.replace("]]>", "]]]]><![CDATA[>")))
+            }
             OutputEvent::End(name) => Event::End(BytesEnd::new(name)),
             OutputEvent::Other(e) => e,
         }
